@@ -14,9 +14,18 @@ HERE = os.path.dirname(os.path.abspath(__file__))
 sys.path.insert(0, HERE)
 import vlib  # noqa: E402
 
-MODULES = {
-    "C01": "props.queue", "C09": "props.queue",
-}
+
+
+def discover():
+    """tools/props/<x>.py with PROPS = [...] serve those properties"""
+    table = {}
+    for f in sorted(os.listdir(os.path.join(HERE, "props"))):
+        if f.endswith(".py") and f != "__init__.py":
+            m = importlib.import_module("props." + f[:-3])
+            for p in getattr(m, "PROPS", []):
+                table[p] = m
+    return table
+
 
 
 def main():
@@ -25,10 +34,11 @@ def main():
     ap.add_argument("--tier", default=os.environ.get("VERIF_TIER", "quick"), choices=["quick", "thorough"])
     ap.add_argument("--replay", default=None)
     a = ap.parse_args()
-    if a.prop not in MODULES:
+    table = discover()
+    if a.prop not in table:
         print("unknown property %s" % a.prop)
         return 2
-    mod = importlib.import_module(MODULES[a.prop])
+    mod = table[a.prop]
     try:
         if a.replay:
             return mod.replay(a.prop, a.replay)
